@@ -46,6 +46,16 @@ def gen(seed, tier):
             spec["via"] = "adopt"
             payloads.append({"id": "par%d" % i, "flavour": rng.choice(FL), "via": "queued", "steps": [["sleep", rng.choice([0.0, 0.1, 0.3])], ["adopt", pid], ["block"]], "cleanup_sync": 1})
         payloads.append(spec)
+    if rng.random() < 0.2:
+        # a coroutine payload that keeps calling execute(): when the termination arrives its loop
+        # thread is, more likely than not, blocked waiting for the other loop or for a thread
+        cfl = rng.choice(["asyncio", "trio"])
+        ofl = "trio" if cfl == "asyncio" else "asyncio"
+        steps = [["sleep", rng.choice([0.0, 0.1])]]
+        for j in range(rng.randint(2, 6)):
+            payloads.append({"id": "xq%d" % j, "flavour": rng.choice([ofl, ofl, "threading"]), "via": "execute", "steps": [["sleep", rng.choice([0.05, 0.2, 0.5])], ["return", "none"]], "cleanup_sync": 1})
+            steps += [["execute", "xq%d" % j], ["sleep", rng.choice([0.0, 0.05])]]
+        payloads.append({"id": "execer", "flavour": cfl, "via": "queued", "steps": steps + [["block"]], "cleanup_sync": 1})
     for op in late:
         dscript += [["sleep", rng.choice([0.0, 0.0, 0.05, 0.3])], op]
     if rng.random() < 0.3:
